@@ -49,7 +49,7 @@ Traces == JsonDeserialize(IOEnv.TRACE_FILE)
 VARIABLES tid, l
 
 tvars == <<vars, tid, l>>
-frozen == <<gen, tmo, handle, task, ready, wl, hc, nops, rt, wt>>
+frozen == <<gen, tmo, handle, task, ready, wl, hc, sc, nops, rt, wt>>
 
 T == Traces[tid]
 Rec == T[l]
@@ -67,7 +67,7 @@ TInit ==
   /\ ticket = [e \in Ents |-> 0]
   /\ armed = [e \in Ents |-> FALSE]
   /\ adl = [e \in Ents |-> 0]
-  /\ hs = <<>> /\ hc = <<>>
+  /\ hs = <<>> /\ hc = <<>> /\ sc = <<>>
   /\ requests = {}
   /\ gen = [mgr |-> 1, cli |-> 1]
   /\ tmo = [e \in Ents |-> 0]
